@@ -188,6 +188,10 @@ func (lalr *LALR1) CaclIncludeRelation(tr int) []Relation {
 		for Dot, sycheck := range r.RighPart {
 			if sy == sycheck && lalr.seqenceCanEpsilon(r.RighPart[Dot+1:]) {
 				for _, q := range lalr.fechStateNumber(index) {
+					// (p, A) includes (q, B) only if q --beta--> p
+					if lalr.walkStates(q, r.RighPart[:Dot]) != lalr.trans[tr].q {
+						continue
+					}
 					if to_index, err := lalr.fetchTransIndex(q, int(LeftSy.ID)); err == nil {
 						res = append(res, Relation{x: tr, y: to_index})
 					}
@@ -217,9 +221,12 @@ func (lalr *LALR1) CalcLookbacks() []Relation {
 		trIndex := tr.Index
 		ruleIndex := tr.sym_or_rule & Mask
 		leftPart := lalr.G.ProductoinRules[ruleIndex].LeftPart
+		rightPart := lalr.G.ProductoinRules[ruleIndex].RighPart
 		for tr_2 := range lalr.DRSet {
 			SyIndex := lalr.trans[tr_2].sym_or_rule
-			if SyIndex == leftPart.ID {
+			// (q, A->omega) lookback (p, A) only if p --omega--> q
+			if SyIndex == leftPart.ID &&
+				lalr.walkStates(lalr.trans[tr_2].q, rightPart) == tr.q {
 				// trIndex lookback tr2
 				res = append(res, Relation{x: trIndex, y: tr_2})
 			}
